@@ -88,6 +88,7 @@ func LoadMod(dir, goarch, modPrefix string, minPkgs int) (*World, error) {
 		"GOTOOLCHAIN=local", "CGO_ENABLED=0", "GOOS=linux", "GOARCH="+goarch)
 	known := func(f *types.Func) bool { return true }
 	overlay := map[string][]byte{}
+	importsAdded := map[string]bool{}
 	var fset *token.FileSet
 	var pkgs []*packages.Package
 	var inlineNotes []string
@@ -123,6 +124,21 @@ func LoadMod(dir, goarch, modPrefix string, minPkgs int) (*World, error) {
 	if err != nil {
 		return nil, err
 	}
+	var renameNotes []string
+	repoOnly := func(ps []*packages.Package) []*packages.Package {
+		var out []*packages.Package
+		for _, p := range ps {
+			if strings.HasPrefix(p.PkgPath, modPrefix) {
+				out = append(out, p)
+			}
+		}
+		return out
+	}
+	if modPrefix == modulePath {
+		renameNotes = detectRenames(repoOnly(pkgs))
+	} else {
+		resetRenames()
+	}
 	if !noSrcInline {
 		if modPrefix == modulePath {
 			var repoPkgs []*packages.Package
@@ -147,7 +163,7 @@ func LoadMod(dir, goarch, modPrefix string, minPkgs int) (*World, error) {
 		for k, v := range overlay {
 			next[k] = v
 		}
-		il := &inliner{fset: fset, pkgs: repoPkgs, overlay: next, known: known, round: round}
+		il := &inliner{fset: fset, pkgs: repoPkgs, overlay: next, known: known, round: round, importsAdded: importsAdded}
 		n, notes := il.planRound()
 		if n == 0 {
 			break
@@ -165,7 +181,12 @@ func LoadMod(dir, goarch, modPrefix string, minPkgs int) (*World, error) {
 		}
 		fset, pkgs, overlay = fs2, ps2, next
 		inlineNotes = append(inlineNotes, notes...)
+		if modPrefix == modulePath {
+			detectRenames(repoOnly(pkgs)) // the objects are new after a reload
+			known = knownPredicate(repoOnly(pkgs))
+		}
 	}
+	inlineNotes = append(renameNotes, inlineNotes...)
 	w := &World{Dir: dir, GOARCH: goarch, Fset: fset, Pkgs: map[string]*packages.Package{}, SSA: map[string]*ssa.Package{}, Inlined: inlineNotes, known: known}
 	for _, p := range pkgs {
 		if !strings.HasPrefix(p.PkgPath, modPrefix) {
@@ -345,6 +366,12 @@ func (w *World) Func(pkg, name string) (*ssa.Function, error) {
 		return nil, anchorErr{pkg}
 	}
 	f := sp.Func(name)
+	if f == nil {
+		// renamed? (rename.go)
+		if fo, found := funcByRef[sp.Pkg.Path()+"."+name]; found {
+			f = w.Prog.FuncValue(fo)
+		}
+	}
 	if f == nil || len(f.Blocks) == 0 {
 		return nil, anchorErr{pkg + "." + name}
 	}
@@ -360,6 +387,12 @@ func (w *World) Named(pkg, typ string) (*types.Named, error) {
 	}
 	obj := p.Types.Scope().Lookup(typ)
 	tn, ok := obj.(*types.TypeName)
+	if !ok {
+		// renamed? (rename.go)
+		if rn, found := typeByRef[p.PkgPath+"."+typ]; found {
+			tn, ok = rn, true
+		}
+	}
 	if !ok {
 		return nil, anchorErr{pkg + "." + typ}
 	}
@@ -380,7 +413,7 @@ func (w *World) Method(pkg, typ, name string) (*ssa.Function, error) {
 		ms := w.Prog.MethodSets.MethodSet(T)
 		for i := 0; i < ms.Len(); i++ {
 			sel := ms.At(i)
-			if sel.Obj().Name() == name && sel.Obj().Pkg() == w.Pkgs[pkg].Types {
+			if fo, isF := sel.Obj().(*types.Func); isF && funcObjName(fo) == name && sel.Obj().Pkg() == w.Pkgs[pkg].Types {
 				f := w.Prog.FuncValue(sel.Obj().(*types.Func))
 				if f != nil && len(f.Blocks) > 0 {
 					anchored[f] = true
@@ -403,7 +436,7 @@ func (w *World) FieldVar(pkg, typ, field string) (*types.Var, error) {
 		return nil, anchorErr{pkg + "." + typ + " (not a struct)"}
 	}
 	for i := 0; i < st.NumFields(); i++ {
-		if st.Field(i).Name() == field {
+		if fieldName(st.Field(i)) == field {
 			return st.Field(i), nil
 		}
 	}
